@@ -118,7 +118,7 @@ def c16(ctx):
     by_role = {}
     for b in inst.buffers:
         by_role.setdefault(b.role, []).append(b)
-    if len(by_role.get(BufferRoleConfig.INPUT, [])) != 1 or len(by_role.get(BufferRoleConfig.OUTPUT, [])) != 1:
+    if len(by_role.get(BufferRoleConfig.INPUT, [])) < 1 or len(by_role.get(BufferRoleConfig.OUTPUT, [])) < 1:
         yield F("input-output-buffers", f"{[(b.id, b.role) for b in inst.buffers]}")
         return
     inb, outb = by_role[BufferRoleConfig.INPUT][0], by_role[BufferRoleConfig.OUTPUT][0]
